@@ -149,6 +149,13 @@ def summarise(prog, limit=60000):
                 x = d.a[1][1]
                 if is_const(lit, "str") and is_rmc(x):
                     return ("rmc_in", const_val(lit)), bv
+            if n.endswith("str>::is_empty") and d.a[1] and is_rest(d.a[1][0]) and (("char_some",), True) in s.atoms and bv is not None:
+                # the value has a first character on this path: nothing after it ⇔ the value is one character long
+                return ("value_count_eq", 1), bv
+            if n.endswith("str>::ends_with") and len(d.a[1]) == 2 and is_value(peel_conv(d.a[1][0])) and is_const(strip_refs(d.a[1][1]), "char") and bv is not None:
+                # `value.ends_with(c)` is `value.chars().last() == Some(c)`
+                cp = ord(const_val(strip_refs(d.a[1][1])))
+                return ("value_last_switch", (cp,)), ((cp,) if bv else "otherwise")
             if n.endswith("String::is_empty") and self_path(d.a[1][0]) == (buf,):
                 if wrote_buf:
                     s.tainted = True
@@ -381,6 +388,8 @@ def feasible(s, pe=None, cls=None):
     for a, v in s.atoms:
         if a[0] in ("buf_empty", "popped_some", "popped_switch", "pending_some", "pending_variant"):
             continue        # state that the path itself may have changed
+        if a[0] in ("char_switch", "rmc_switch"):
+            continue        # matches narrow the character step by step (below): two arms of two matches need not be the same set
         key = a
         if key in seen and seen[key] != v:
             return False
@@ -389,16 +398,24 @@ def feasible(s, pe=None, cls=None):
         ident = [a[1] for a, v in s.atoms if a[0] == kind_eq and v is True]
         if len(set(ident)) > 1:
             return False
+        # every match on the character narrows it: an arm (possibly shared by several patterns) keeps its patterns, `_ =>` excludes the listed ones
         sw = [(a[1], v) for a, v in s.atoms if a[0] == kind_sw]
+        cands, excluded = None, set()
         for allv, v in sw:
             if v != "otherwise":
-                if ident and ord(ident[0]) not in v:
-                    return False
-                if len(v) == 1:
-                    ident = ident or [chr(v[0])]
+                cands = set(v) if cands is None else (cands & set(v))
             else:
-                if ident and ord(ident[0]) in allv:
-                    return False
+                excluded |= set(allv)
+        if cands is not None:
+            cands -= excluded
+            if not cands:
+                return False
+            if ident and ord(ident[0]) not in cands:
+                return False
+            if len(cands) == 1:
+                ident = ident or [chr(next(iter(cands)))]
+        if ident and ord(ident[0]) in excluded:
+            return False
         neg = [a[1] for a, v in s.atoms if a[0] == kind_eq and v is False]
         if ident and ident[0] in neg:
             return False
